@@ -1323,6 +1323,17 @@ class Repository:
             finally:
                 await chunk_producer
 
+        # Empty files are recorded as empty ranges of the chunks around them. If there
+        # are no chunks at all (nothing but empty files), record them explicitly
+        for _, file in state.files:
+            if file.path not in snapshot_files:
+                snapshot_files[file.path] = {
+                    'path': file.path,
+                    'chunks': [],
+                    'digest': file.digest,
+                    'metadata': file.metadata,
+                }
+
         now = datetime.utcnow()
         snapshot_data = {
             'utc_timestamp': str(now),
@@ -1558,6 +1569,13 @@ class Repository:
 
                 files_sizes[file_path] = chunk_position
                 total_bytes += chunk_position
+
+                if not ordered_chunks:
+                    # No chunk will ever trigger the creation of this (empty) file
+                    del files_metadata[file_path]
+                    self._write_file_part(restore_to, b'', 0)
+                    os.truncate(restore_to, 0)
+                    self.restore_metadata(restore_to, file_data['metadata'])
 
         bytes_tracker = tqdm(
             desc='Data processed',
